@@ -91,7 +91,13 @@ func (g *vC02Gen) nsec3Chain(z *vC02Zone, p vC02Params, optout bool, allFlagged 
 	omit := map[string]bool{}
 	if optout {
 		for _, nd := range z.nodes {
-			if vC02Has(nd.types, dns.TypeNS) && !vC02Has(nd.types, dns.TypeSOA) && !vC02Has(nd.types, dns.TypeDS) && r.Intn(3) > 0 {
+			underWild := false // Opt-Out never hides a wildcard name (optout_discipline in Proofs_Nsec3.v)
+			for _, l := range nd.name[:len(nd.name)-len(z.apex)] {
+				if string(l) == "*" {
+					underWild = true
+				}
+			}
+			if !underWild && vC02Has(nd.types, dns.TypeNS) && !vC02Has(nd.types, dns.TypeSOA) && !vC02Has(nd.types, dns.TypeDS) && r.Intn(3) > 0 {
 				omit[vC02Key(nd.name)] = true
 				omitted = append(omitted, nd.name)
 			}
